@@ -380,6 +380,8 @@ class AccessMixin:
                 obj[key] = v
             except TypeError:
                 self.notes.append(("unhashable-key-store", frame.where(node)))
+            if isinstance(v, View) and isinstance(key, str):
+                self.event("view-stored", key=key, view=v, where=frame.where(node), node=node)
             return
         if isinstance(obj, SymDict):
             obj.writes.append((key, v, frame.where(node)))
